@@ -261,6 +261,17 @@ def same(a, b, exact=True):
     return bool(torch.allclose(a, b, rtol=1e-12, atol=1e-300, equal_nan=True))
 
 
+def same_div(got, want, divisor_zero):
+    """like same(..., exact=False) but where the divisor is +-0 only magnitudes are compared: 0.0 == -0.0 as tensors
+    elements, so the sign of an infinity obtained by dividing by such a zero is not part of the denotation"""
+    if tuple(got.shape) != tuple(want.shape) or got.dtype != want.dtype:
+        return False
+    z = divisor_zero.expand(got.shape) if divisor_zero.shape != got.shape else divisor_zero
+    a = torch.where(z, got.abs(), got)
+    b = torch.where(z, want.abs(), want)
+    return bool(torch.allclose(a, b, rtol=1e-12, atol=1e-300, equal_nan=True))
+
+
 class Machine:
     def __init__(self, case, env):
         self.F = import_repo()
@@ -430,6 +441,11 @@ class Machine:
         else:
             r = getattr(x.pt, name)(y.pt)
         m = tf[name](x.model, y.model)
+        if name == 'div':
+            d = r.to_dense()
+            if not same_div(d, m, y.model == 0):
+                V('denotation', [name], f'{name}: result denotes {d.tolist()} but torch gives {m.tolist()}')
+            m = d.clone()
         self.result(name, r, m, x.sig, exact=name not in ('logaddexp', 'div'))
         return name
 
@@ -848,7 +864,8 @@ class Machine:
             V('in-place-identity', ['itruediv_t' if div else 'imul_t'], 'in-place operator returned another object')
         self.retire_aliases(x)
         x.alias = self.new_alias()
-        if not same(x.pt.to_dense(), x.model, exact=not div):
+        ok = same_div(x.pt.to_dense(), x.model, y.model == 0) if div else same(x.pt.to_dense(), x.model, exact=True)
+        if not ok:
             V('denotation', ['itruediv_t' if div else 'imul_t'], f'{x.pt.to_dense().tolist()} vs {x.model.tolist()}')
         x.model = x.pt.to_dense().clone()
         return 'itruediv_t' if div else 'imul_t'
